@@ -257,9 +257,116 @@ def r6_sorted(ctx, cfgs):
     return r
 
 
+def r7_key_order(ctx):
+    """the serde visitors that read an object field by field: abstract evaluation (rules/absint.py) on every order of the
+    same entries must give the same result"""
+    import itertools
+    from rules import absint
+    from rules.absint import AEval, A, C, CF, L, T, UNIT
+    r = Rule("C10.R7", "objects are read independently of the order of their keys",
+             "`the same project gives the same code and diagnostics whatever the order of keys inside a file`: a visitor that pairs or "
+             "consumes fields as they arrive makes `{value, count}` differ from `{count, value}`", floor=3)
+    ast = ctx.ast
+    PR_ = "leptos_i18n_parser/src/parse_locales/ranges.rs"
+    PLc = "leptos_i18n_parser/src/parse_locales/locale.rs"
+    CFGf = "leptos_i18n_parser/src/parse_locales/cfg_file.rs"
+    S = lambda x: ("str", x)  # noqa: E731
+
+    def harness(funcs, consts=None):
+        def next_key(rv, a):
+            ents = absint.fields_of(rv)["entries"][1]
+            if not ents:
+                return rv, C("Ok", C("None"))
+            k, v = ents[0][1]
+            return CF("Map", entries=L(*ents[1:]), pending=C("Some", v)), C("Ok", C("Some", k))
+
+        def next_value(rv, a):
+            fs = absint.fields_of(rv)
+            if fs["pending"][1] != "Some":
+                raise absint.Unknown("next_value without a pending key")
+            return CF("Map", entries=fs["entries"], pending=C("None")), C("Ok", fs["pending"][2][0])
+        ev = AEval(funcs=funcs, consts=consts or {})
+        ev.mut_builtins = {"next_key": next_key, "next_value": next_value, "next_value_seed": next_value}
+        ev.builtins = {"push_key": lambda rv, a: UNIT, "pop_key": lambda rv, a: C("None")}
+        for pre in ("serde::de::Error::", "de::Error::", "Error::", "A::Error::"):
+            for nm in ("missing_field", "duplicate_field", "custom", "invalid_length", "unknown_field"):
+                ev.path_builtins[pre + nm] = lambda a, nm=nm: C(nm, *a[:1])
+        return ev
+
+    def mk_map(entries):
+        return CF("Map", entries=L(*[T(k, v) for k, v in entries]), pending=C("None"))
+
+    def norm(v):
+        # maps are collections: compare their entries without order
+        if isinstance(v, tuple) and v and v[0] == "list" and v[1] and all(x[0] == "tuple" and len(x[1]) == 2 for x in v[1]):
+            return ("list", tuple(sorted((norm(x) for x in v[1]), key=repr)))
+        if isinstance(v, tuple):
+            return tuple(norm(x) for x in v)
+        return v
+    cases = []
+    # 1. a range branch written as an object
+    fr = [f for f in ast.fns_named(PR_, "visit_map") if f.impl_self and "RangeStructSeed" in f.impl_self]
+    if not fr:
+        r.missing("RangeStructSeed::visit_map")
+    else:
+        funcs = {f.name: f for f in ast.fns if f.file.endswith(PR_) and f.body is not None and "RangeStructSeed" in f.qual and "::visit_map::" in f.qual}
+        sets = {"count+value": [(C("Range"), A("range 1..")), (C("Value"), A("text"))], "value only": [(C("Value"), A("text"))],
+                "count only": [(C("Range"), A("range 1.."))], "count twice": [(C("Range"), A("r1")), (C("Value"), A("text")), (C("Range"), A("r2"))]}
+        cases.append(("RangeStructSeed::visit_map", fr[0], funcs, {}, sets, lambda m: [CF("RangeStructSeed", **{"0": A("seed")}), m],
+                      {"count+value": C("Ok", T(A("range 1.."), A("text"))), "value only": C("Ok", T(C("Fallback"), A("text")))}))
+    # 2. the keys of a translation file / sub-key group
+    fl = [f for f in ast.fns_named(PLc, "visit_map") if f.impl_self and "LocaleSeed" in f.impl_self]
+    if not fl:
+        r.missing("LocaleSeed::visit_map")
+    else:
+        sets = {"three keys": [(S("a"), A("va")), (S("b"), A("vb")), (S("c"), A("vc"))]}
+        cases.append(("LocaleSeed::visit_map", fl[0], {}, {}, sets,
+                      lambda m: [CF("LocaleSeed", key_path=A("kp"), top_locale_name=S("en"), foreign_keys_paths=A("fkp"), name=S("en")), m],
+                      {"three keys": C("Ok", L(T(S("a"), A("va")), T(S("b"), A("vb")), T(S("c"), A("vc"))))}))
+    # 3. the configuration section
+    fc = [f for f in ast.fns_named(CFGf, "visit_map") if f.impl_self and "CfgFileVisitor" in f.impl_self]
+    if not fc:
+        r.missing("CfgFileVisitor::visit_map")
+    else:
+        consts = {}
+        for cname in ("DEFAULT", "LOCALES", "NAMESPACES", "LOCALES_DIR", "TRANSLATIONS_URI", "EXTENSIONS"):
+            c = ast.const(CFGf, cname, "Field")
+            if c is not None:
+                consts["Field::" + cname] = S(c["expr"].get("str"))
+        sets = {"default+locales+inherits+dir": [(C("Default"), S("en")), (C("Locales"), L(S("en"), S("fr"))), (C("Extensions"), L(T(S("fr"), S("en")))), (C("LocalesDir"), S("i18n"))]}
+        cases.append(("CfgFileVisitor::visit_map", fc[0], absint.file_funcs(ast, CFGf, impl_self="CfgFileVisitor"), consts, sets, lambda m: [A("visitor"), m], {}))
+    for label, fn, funcs, consts, sets, mkargs, wants in cases:
+        ok = True
+        n = 0
+        for sname, ents in sets.items():
+            seen = {}
+            for perm in itertools.permutations(ents):
+                ev = harness(funcs, consts)
+                got = ev.run_fn(fn, mkargs(mk_map(list(perm))))
+                if isinstance(got, str):
+                    r.viol("R7:%s#eval" % label, "cannot be evaluated on %s: %s" % (sname, got), file=fn.file, line=fn.line)
+                    ok = False
+                    break
+                n += 1
+                seen.setdefault(repr(norm(got)), (perm, got))
+            if not ok:
+                break
+            if len(seen) > 1:
+                (p1, g1), (p2, g2) = list(seen.values())[:2]
+                r.viol("R7:%s#order" % label, "%s: fields in the order %s give %s, in the order %s give %s" % (
+                    sname, [absint.fmt(k) for k, _v in p1], absint.fmt(g1)[:120], [absint.fmt(k) for k, _v in p2], absint.fmt(g2)[:120]), file=fn.file, line=fn.line)
+                ok = False
+            elif sname in wants and norm(list(seen.values())[0][1]) != norm(wants[sname]):
+                r.viol("R7:%s#result" % label, "%s gives %s, expected %s" % (sname, absint.fmt(list(seen.values())[0][1])[:160], absint.fmt(wants[sname])), file=fn.file, line=fn.line)
+                ok = False
+        if ok:
+            r.inst(label, "%d orderings of %d field sets: one result per set" % (n, len(sets)))
+    return r
+
+
 def run(ctx):
     cfgs = ["main"] if ctx.tier == "quick" else ["main", "yaml", "json5", "bare"]
-    return [r1_unordered(ctx, cfgs), r2_ambient(ctx, cfgs), r4_frontends(ctx), r5_types(ctx, cfgs), r6_sorted(ctx, cfgs[:1])]
+    return [r1_unordered(ctx, cfgs), r2_ambient(ctx, cfgs), r4_frontends(ctx), r5_types(ctx, cfgs), r6_sorted(ctx, cfgs[:1]), r7_key_order(ctx)]
 
 
 MANIFEST_ENTRY = {
